@@ -68,6 +68,7 @@ func RunVConc(ch vsched.Chooser, sc *VConc) (*vsched.Result, *VConcResult) {
 	res := vsched.Run(ch, 50000, false, func() {
 		vsched.SetRecording(false)
 		c := NewVCluster(2)
+		c.Concurrent = true
 		for _, e := range []VEvent{{K: "LA", N: 2}, {K: "LA", N: 1, CP: true}, {K: "RP", Node: 1}, {K: "LA", N: 2}, {K: "RP", Node: 1}} {
 			c.Apply(e)
 		}
